@@ -1911,7 +1911,18 @@ static bool parse_bs_newline(TokenContext &ctx, Chunk &pc)
       {
          if (ch == '\r')
          {
-            ctx.expect('\n');
+            if (ctx.expect('\n'))
+            {
+               ++LE_COUNT(CRLF);
+            }
+            else
+            {
+               ++LE_COUNT(CR);
+            }
+         }
+         else
+         {
+            ++LE_COUNT(LF);
          }
          pc.SetType(CT_NL_CONT);
          pc.Str() = "\\";
